@@ -225,6 +225,12 @@ fn run(ctx: &Ctx, rep: &Report) {
             jobs.push((s, h.clone()));
         }
     }
+    if ctx.tier.pick(false, true) {
+        // one level deeper on the smallest start
+        for h in all_sequences(&ops, 5).into_iter().filter(|h| h.len() == 5) {
+            jobs.push((0, h));
+        }
+    }
     let maxlen = ctx.tier.pick(8, 12);
     for s in n_exhaustive..starts.len() {
         for j in 0..ctx.tier.pick(3, 40) {
